@@ -43,9 +43,14 @@ TEMPLATES = {
     # `|list` of a list that lives in a cached imported module is a private copy per render
     "lstlib": "{% set base = [0] %}{% macro show() %}{{ base }}{% endmacro %}",
     "lstimp": "{% import 'lstlib' as l %}{% set mine = l.base|list %}{% set _ = mine.append(x) %}{{ f('n') }}{{ mine }}{{ l.base }}{{ l.show() }}",
+    # process-wide helpers of the engine (policy tables, fast-path type sets) touched by one task, read by the other
+    "tji": "{{ dct|tojson(2) }}{{ f('a') }}{{ dct|tojson(indent=1) }}",
+    "tj": "{{ f('b') }}{{ dct|tojson }}{{ f('c') }}{{ dct|tojson }}",
+    "gen": "{{ dct|items|list }}{{ f('a') }}{{ dct|items|list }}",
+    "gcoro": "{{ f('b') }}{{ gc('v') }}{{ f('c') }}{{ gc('w') }}",
     "impae": "{% import 'libae' as l %}{{ l.am('<' ~ x, x == 1) }}{{ '<' }}",
 }
-POOL = ["imp", "fromctx", "loopns", "macro", "child", "volatile", "incl", "impae", "pg.html", "ml.txt", "nsimp", "lstimp"]
+POOL = ["imp", "fromctx", "loopns", "macro", "child", "volatile", "incl", "impae", "pg.html", "ml.txt", "nsimp", "lstimp", "tji", "tj", "gen", "gcoro"]
 # small templates (<= 2 gates) for the 3-task harnesses: the interleaving tree of three 5-step tasks has 756756 leaves
 TEMPLATES.update({
     "slib": "{% set v = f('L') %}{% macro sm() %}{{ v }}{{ x }}{% endmacro %}",
@@ -92,8 +97,20 @@ def mk_f(tag):
     return f
 
 
+def mk_gc(tag):
+    import types
+
+    @types.coroutine
+    def gc(label):
+        # a generator-based coroutine: awaitable, but its type is plain `generator`
+        yield from e4.Gate((tag, "gc", label)).__await__()
+        return f"{label}{tag}"
+
+    return gc
+
+
 def data(i):
-    return {"x": i + 1, "f": mk_f("T%d" % i), "items": [1, 1, 2][: 2 + (i % 2)]}
+    return {"x": i + 1, "f": mk_f("T%d" % i), "items": [1, 1, 2][: 2 + (i % 2)], "dct": {"k": [1, i]}, "gc": mk_gc("T%d" % i)}
 
 
 def solo(name, i, warm):
@@ -121,9 +138,20 @@ def module_exports(env):
                         if not k.startswith("_")))
 
 
+def _noaddr(results):
+    """results with object addresses blanked (an un-awaited object printed by a broken tree must not look like
+    harness nondeterminism)"""
+    import re
+
+    return {k: re.sub(r" at 0x[0-9a-fA-F]+", " at 0x?", v) if isinstance(v, str) else v for k, v in results.items()}
+
+
 def shard(arg):
     names, warm = arg
     p = core.Part()
+    from checks import c29
+
+    state0 = [c29.module_state()]  # before anything is rendered in this shard
     expect = [solo(n, i, warm) for i, n in enumerate(names)]
     ref_env = make_env()
     warm_up(ref_env)
@@ -142,11 +170,25 @@ def shard(arg):
 
     def on_execution(x):
         p.evals += 1
+        st = c29.module_state()
+        polluted = st != state0[0]
+        if polluted:
+            changed = sorted(k for k in st if st[k] != state0[0].get(k))
+            state0[0] = st
+            p.violation("C37/process-wide-state-modified/" + ",".join(changed)[:60], {
+                "msg": f"tasks={names} warm={warm} schedule={x.order}: the renders changed module-level state of the package: {changed}",
+                "script": f"from checks import c37\nc37.replay({list(names)!r}, {warm!r}, {list(x.choices)!r})\n"})
         if first[0]:
             first[0] = False
             y = make_run(tuple(x.choices))
-            if y.order != x.order or y.results != x.results:
-                raise core.HarnessError(f"nondeterministic replay for {names}")
+            if y.order != x.order or _noaddr(y.results) != _noaddr(x.results):
+                if polluted:
+                    # the same schedule on a fresh environment behaves differently because of the state reported above
+                    p.violation("C37/history-dependent-render", {
+                        "msg": f"tasks={names} warm={warm}: the same schedule {x.order} on two fresh environments gave {x.results!r} and then {y.results!r}",
+                        "script": f"from checks import c37\nc37.replay({list(names)!r}, {warm!r}, {list(x.choices)!r})\n"})
+                else:
+                    raise core.HarnessError(f"nondeterministic replay for {names}")
         got = [("exc", type(x.errors[i]).__name__) if i in x.errors else x.results[i] for i in range(len(names))]
         seen_outcomes.add((tuple(map(str, got)), module_exports(x.env)))
         for i, n in enumerate(names):
